@@ -59,7 +59,8 @@ def attach():
     MapfileToDict._mf_c02 = True
 
 
-QUOTE_SURFACES = [render.CANONICAL, render.Surface(quote="sq", name="single-quoted"), render.Surface(quote="random", name="mixed-quotes")]
+QUOTE_SURFACES = [render.CANONICAL, render.Surface(quote="sq", name="single-quoted"), render.Surface(quote="random", name="mixed-quotes"),
+                  render.Surface(numspell=1.0, name="numbers-respelled")]
 
 
 def judge(ctx, eng, nodes, label, slot=None, surface=None):
@@ -108,7 +109,7 @@ def run(ctx):
             res.seen("slot-positions", f"{o}.{k}:{a.kind}:{pos}")
             # quoted values (strings, hex colours, key-value pairs) are written with both quote characters over the sweep
             judge(ctx, eng, [node], "vocab", slot=f"{o}.{k}:{a.kind}:{pos}",
-                  surface=QUOTE_SURFACES[("only", "first", "middle", "last").index(pos) % 3])
+                  surface=QUOTE_SURFACES[("only", "first", "middle", "last").index(pos)])
     logs.take()
     # ---- W-gen: random documents
     n = ctx.n(1600, 45000)
@@ -139,7 +140,7 @@ def run(ctx):
         if kv_dups or attr_dups:
             res.count("dup_key_docs")
         logs.take()
-        d = judge(ctx, eng, nodes, "gen", surface=QUOTE_SURFACES[j % 3])
+        d = judge(ctx, eng, nodes, "gen", surface=QUOTE_SURFACES[j % 4])
         if d is not None:
             warns = [m for lv, m in logs.take() if lv == "WARNING" and "duplicate key" in m]
             res.count("dup_warnings_expected", kv_dups)
